@@ -52,7 +52,9 @@ REQUIRED_THEOREMS = ["reregistration_replaces", "observe_strictly_increasing", "
                      "no_notification_after_error_response_run", "no_notification_after_error_notification_run",
                      "no_notification_after_session_loss_run", "no_notification_after_resource_deletion_run",
                      "deregistration_invariants_init", "stale_entry_keeps_wakeup", "clean_entry_holds_latest",
-                     "latest_eventually_notified_run", "fair_when_acknowledged", "fair_when_non", "wake_holds_initially"]
+                     "latest_eventually_notified_run", "fair_when_acknowledged", "fair_when_non", "wake_holds_initially",
+                     "fair_when_first_stale", "latest_eventually_notified_first_stale", "observe_strictly_increasing_run_init",
+                     "no_notification_after_session_loss_run'"]
 RULE = ("event histories (8..90 events + optional fair tail) over 1..3 observable resources (default / NOTIFY_CON / NOTIFY_NON / "
         "NOTIFY_NON_ALWAYS, Observe counter started at 0, mid-range, and just below 2^23 / 2^24 so that it wraps) and 1..4 real "
         "clients: register / re-register (same token, other token same query, other query) / Observe=1 cancel / plain GET with CON "
@@ -166,11 +168,114 @@ def gen_req(rng, op, ncli, nres, mids):
                                      rng.choice("CCN"), mids[c])
 
 
+BLOCK_SHARE = 0.12      # share of the histories that use a block-wise resource (judged by the oracle only, not replayed through M)
+
+
+def gen_block_history(rng):
+    """A history around a notification body larger than one block (harness/observe.c: resource kind `b`): register, change,
+    I/O step (the first block of the notification goes out), the client fetches 0..all further blocks, another change within
+    2 s of the last block request while blocks are outstanding (libcoap holds that notification back: the lg_xmit deferral
+    branch of coap_notify_observers), random events, then the block-wise FAIR TAIL: the client fetches the rest or goes silent,
+    every Confirmable is acknowledged, time passes in steps of more than 2 s with the I/O loop running, `io io io`."""
+    st = rng.choice([20, 30, 300])
+    nres = rng.choice([1, 1, 1, 2])
+    ncli = rng.choice([1, 1, 2, 3])
+    szx = [rng.choice([None, 0, 0, 0, 1, 2, 4, 6]) for _ in range(nres)]
+    kinds = ["b"] + [rng.choice("bbdc") for _ in range(nres - 1)]
+    rng.shuffle(kinds)
+    rs = ",".join("%s%d%s" % (m, rng.choice(STARTS), "/%d" % z if m == "b" and z is not None else "") for m, z in zip(kinds, szx))
+    bidx = [r for r in range(nres) if kinds[r] == "b"]
+    mids = [rng.randrange(0, 65536) for _ in range(ncli)]
+    obs = []          # (client, resource, token index, query) registered by the scripted part
+    evs = []
+
+    def mid(c):
+        mids[c] = (mids[c] + 1) % 65536
+        return mids[c]
+
+    def blk(c, r, t, q, num):
+        return "blk:%d:%d:%d:%d:%s:%d:%d" % (c, r, t if rng.random() < 0.6 else rng.choice([7, 8, 9]), q, rng.choice("CCN"), mid(c), num)
+
+    def small_gap():
+        if rng.random() < 0.6:
+            evs.append("adv:%d" % rng.choice([0, 1, 100, 500, 1000, 1500, 1900, 1999]))
+
+    for c in range(ncli):
+        for _ in range(rng.choice([1, 1, 1, 2])):
+            r = rng.choice(bidx) if rng.random() < 0.85 else rng.randrange(nres)
+            t, q = rng.choice([1, 2, 3]), rng.choice([0, 0, 1, 2])
+            evs.append("reg:%d:%d:%d:%d:%s:%d" % (c, r, t, q, rng.choice("CCN"), mid(c)))
+            obs.append((c, r, t, q))
+    # the registration response is itself a body in progress: fetch its rest, wait it out, or leave it open
+    x = rng.random()
+    if x < 0.35:
+        for (c, r, t, q) in obs:
+            if r in bidx:
+                evs += [blk(c, r, t, q, 1), blk(c, r, t, q, 2)]
+    elif x < 0.7:
+        evs.append("adv:%d" % rng.choice([2000, 2001, 2500, 5000]))
+    for _ in range(rng.choice([1, 1, 2, 3])):
+        r = rng.choice(bidx)
+        evs += ["chg:%d" % r] * rng.choice([1, 1, 2])
+        evs.append("io")                                     # first block of the notification (or held back)
+        for c in range(ncli):
+            if rng.random() < 0.7:
+                evs.append("ack:%d:%d" % (c, 1000))
+        for (c, r2, t, q) in obs:                             # the client fetches 0..all further blocks
+            if r2 == r:
+                for num in range(1, 1 + rng.choice([0, 0, 1, 1, 2, 2])):
+                    small_gap()
+                    evs.append(blk(c, r, t, q, num))
+        small_gap()
+        evs += ["chg:%d" % r] * rng.choice([1, 1, 1, 2, 3])   # changes while blocks are outstanding
+        evs.append(rng.choice(["io", "io", "adv:100", "adv:1999", "adv:2000", "adv:2001"]))
+    for _ in range(rng.choice([0, 0, 2, 5, 10])):             # background noise from the general alphabet
+        x = rng.random()
+        if x < 0.2:
+            evs.append("chg:%d" % rng.randrange(nres))
+        elif x < 0.35:
+            evs.append("io")
+        elif x < 0.5:
+            evs.append("adv:%d" % rng.choice(ADV))
+        elif x < 0.62:
+            evs.append("ack:%d:%d" % (rng.randrange(ncli), note_index(rng)))
+        elif x < 0.68:
+            evs.append("rst:%d:%d" % (rng.randrange(ncli), note_index(rng)))
+        elif x < 0.78:
+            evs.append(gen_req(rng, rng.choice(["reg", "reg", "can", "get"]), ncli, nres, mids))
+        elif x < 0.9 and obs:
+            c, r, t, q = rng.choice(obs)
+            if r in bidx:
+                evs.append(blk(c, r, t, q, rng.choice([0, 1, 1, 2, 2, 3, 200])))
+        elif x < 0.93:
+            evs.append("err:%d:%d" % (rng.randrange(nres), rng.choice([0, 1])))
+        elif x < 0.96:
+            evs.append("lost:%d" % rng.randrange(ncli))
+        else:
+            evs.append("del:%d" % rng.randrange(nres))
+    if rng.random() < 0.85:
+        # block-wise fair tail
+        if rng.random() < 0.5:
+            for (c, r, t, q) in obs:                          # the client finishes what is in progress ...
+                if r in bidx:
+                    evs += [blk(c, r, t, q, 1), blk(c, r, t, q, 2)]
+        for _ in range(5):                                    # ... or goes silent; either way: ACKs, > 2 s, I/O loop, repeated
+            for c in range(ncli):                             # once per observation that may be queueing behind another one
+                for k in range(3):
+                    evs.append("ack:%d:%d" % (c, 1000 + k))
+            evs.append("adv:2001")
+        for c in range(ncli):
+            for k in range(3):
+                evs.append("ack:%d:%d" % (c, 1000 + k))
+        evs += ["io", "io", "io"]
+    return "obs st=%d R=%s C=%d %s" % (st, rs, ncli, " ".join(evs))
+
+
 def generate(ctx, escalate=False):
     n = 40000 if ctx.thorough() else 2000
     if escalate:
         n *= 3
-    return [gen_history(ctx.rng) for _ in range(n)]
+    return [gen_block_history(ctx.rng) if ctx.rng.random() < BLOCK_SHARE else gen_history(ctx.rng) for _ in range(n)]
 
 
 def strip_client(s):
@@ -204,6 +309,12 @@ def judge(ctx, c):
     real = [v for v in viol if v[0] not in O.KNOWN_TAGS]
     if real:
         return ("spec", "[%s] %s" % real[0])
+    if O.is_blockwise(c["input"]):
+        # a line with a block-wise resource (recognised from the INPUT) is not replayed through M: the driver must say so with
+        # its fixed marker, and the implementation's trace is judged by the oracle alone (above)
+        if m != O.NOT_MODELLED:
+            return ("tie", "block-wise line: the driver must answer `%s`, it says `%s`" % (O.NOT_MODELLED, (m or "")[:100]))
+        return ("spec", "[%s] %s" % viol[0]) if viol else None
     if m is None or strip_client(i) != m:
         return ("tie", first_diff(strip_client(i), m or ""))
     if viol:
@@ -276,6 +387,9 @@ def classify(c):
     if " n" in i: k.append("notified")
     if ":C:" in i: k.append("con")
     if " x" in i: k.append("rtx")
+    if O.is_blockwise(c["input"]):
+        k.append("blockwise")
+        if O.held_back_behind_blocks(i): k.append("held-back")      # coverage only: the lg_xmit deferral branch was taken
     if ".1." in i: pass
     return "+".join(k) or "quiet"
 
@@ -287,5 +401,5 @@ def search(ctx, tie_breaks, proof):
         w = c["input"].split()
         for cut in range(5, len(w) + 1, max(1, len(w) // 12)):
             out.append(" ".join(w[:cut] + ["io", "io", "io"]))
-    out += [gen_history(ctx.rng) for _ in range(4000)]
+    out += [gen_block_history(ctx.rng) if ctx.rng.random() < BLOCK_SHARE else gen_history(ctx.rng) for _ in range(4000)]
     return out
